@@ -35,17 +35,48 @@ theorem delTarget_some {maps : Nat → NMap} {n : String} :
     · obtain ⟨⟨s', hs', hm⟩, he⟩ := ih h
       exact ⟨⟨s', List.mem_cons_of_mem _ hs', hm⟩, he⟩
 
-/-- Program-owned maps are as compiled, have no deletable entries, and every stash either aliases a Program map
-(not `own`) or holds a private copy allocated after `bound`. -/
+/-- Program-owned maps are as compiled, have no deletable entries; every stash a Runtime ever created either aliases
+a Program map (not `own`) or holds a private copy allocated after `bound`; the current chain consists of such stashes. -/
 structure NInv (bound : Nat) (m0 : Nat → NMap) (st : St) : Prop where
   bnd : bound ≤ st.next
   ro : ∀ id, id < bound → st.maps id = m0 id
   clean : ∀ id, id < bound → ∀ e ∈ m0 id, e.deletable = false
-  shape : ∀ rt, ∀ s ∈ st.stacks rt, (s.own = false → s.map < bound) ∧ (s.own = true → bound ≤ s.map ∧ s.map < st.next)
+  shape : ∀ rt, ∀ s ∈ st.pool rt, (s.own = false → s.map < bound) ∧ (s.own = true → bound ≤ s.map ∧ s.map < st.next)
+  sub : ∀ rt, ∀ s ∈ st.stacks rt, s ∈ st.pool rt
+
+/-- membership in pool / chain after `push` -/
+theorem mem_push_pool {st : St} {rt r : Nat} {s0 x : Stash} {rest : List Stash}
+    (h : x ∈ (push st rt s0 rest).pool r) : (r = rt ∧ x = s0) ∨ x ∈ st.pool r := by
+  simp only [push] at h
+  by_cases hr : r = rt
+  · simp [hr] at h
+    rcases h with h | h
+    · exact Or.inl ⟨hr, h⟩
+    · exact Or.inr (hr ▸ h)
+  · simp [hr] at h; exact Or.inr h
+
+theorem mem_push_stack {st : St} {rt r : Nat} {s0 x : Stash} {rest : List Stash}
+    (h : x ∈ (push st rt s0 rest).stacks r) : (r = rt ∧ (x = s0 ∨ x ∈ rest)) ∨ (r ≠ rt ∧ x ∈ st.stacks r) := by
+  simp only [push] at h
+  by_cases hr : r = rt
+  · simp [hr] at h; exact Or.inl ⟨hr, h⟩
+  · simp [hr] at h; exact Or.inr ⟨hr, h⟩
+
+theorem push_sub {st : St} {rt : Nat} {s0 : Stash} {rest : List Stash}
+    (hsub : ∀ r, ∀ s ∈ st.stacks r, s ∈ st.pool r) (hrest : ∀ x ∈ rest, x ∈ st.pool rt) :
+    ∀ r, ∀ s ∈ (push st rt s0 rest).stacks r, s ∈ (push st rt s0 rest).pool r := by
+  intro r s hs
+  rcases mem_push_stack hs with ⟨hr, h⟩ | ⟨hr, h⟩
+  · subst hr
+    simp only [push]; simp
+    rcases h with h | h
+    · exact Or.inl h
+    · exact Or.inr (hrest s h)
+  · simp only [push]; simp [hr]; exact hsub r s h
 
 theorem ninv_step {bound : Nat} {m0 : Nat → NMap} {st : St} (rt : Nat) (op : Op)
     (inv : NInv bound m0 st) (h : hOK st rt op = true) : NInv bound m0 (step bound st rt op) := by
-  obtain ⟨bnd, ro, clean, shape⟩ := inv
+  obtain ⟨bnd, ro, clean, shape, sub⟩ := inv
   cases op with
   | enterFunc pm ext =>
     simp only [step]
@@ -53,92 +84,90 @@ theorem ninv_step {bound : Nat} {m0 : Nat → NMap} {st : St} (rt : Nat) (op : O
     · next hpm =>
       cases ext <;> simp only [if_true, if_false, Bool.false_eq_true, reduceIte]
       · -- alias
-        refine ⟨bnd, ro, clean, ?_⟩
+        refine ⟨bnd, ro, clean, ?_, push_sub sub (sub rt)⟩
         intro r s hs
-        simp only [setStack] at hs
-        by_cases hr : r = rt
-        · subst hr
-          simp at hs
-          rcases hs with rfl | hs
-          · simp [hpm]
-          · exact shape r s hs
-        · simp [hr] at hs; exact shape r s hs
+        rcases mem_push_pool hs with ⟨_, rfl⟩ | hs
+        · simp [hpm]
+        · exact shape r s hs
       · -- private copy
-        refine ⟨by simp [setStack, setMap]; omega, ?_, clean, ?_⟩
+        refine ⟨by simp [push, setMap]; omega, ?_, clean, ?_, ?_⟩
         · intro id hid
           have : id ≠ st.next := by omega
-          simp [setStack, setMap, this, ro id hid]
+          simp [push, setMap, this, ro id hid]
         · intro r s hs
-          simp only [setStack, setMap] at hs ⊢
-          by_cases hr : r = rt
-          · subst hr
-            simp at hs
-            rcases hs with rfl | hs
-            · simp; omega
-            · have := shape r s hs
-              constructor
-              · exact this.1
-              · intro ho; have := this.2 ho; omega
-          · simp [hr] at hs
-            have := shape r s hs
+          have hs' : (r = rt ∧ s = ⟨st.next, true, true⟩) ∨ s ∈ st.pool r := by
+            have := mem_push_pool (st := setMap st st.next (st.maps pm)) hs
+            simpa [setMap] using this
+          rcases hs' with ⟨_, rfl⟩ | hs'
+          · simp [push, setMap]; omega
+          · have := shape r s hs'
+            simp only [push, setMap]
             constructor
             · exact this.1
             · intro ho; have := this.2 ho; omega
-    · exact ⟨bnd, ro, clean, shape⟩
+        · have := push_sub (st := setMap st st.next (st.maps pm)) (rt := rt) (s0 := ⟨st.next, true, true⟩) (rest := st.stacks rt)
+            (by simpa [setMap] using sub) (by simpa [setMap] using sub rt)
+          simpa [push, setMap] using this
+    · exact ⟨bnd, ro, clean, shape, sub⟩
   | enterBlock pm =>
     simp only [step]
     split
     · next hpm =>
-      refine ⟨bnd, ro, clean, ?_⟩
+      refine ⟨bnd, ro, clean, ?_, push_sub sub (sub rt)⟩
       intro r s hs
-      simp only [setStack] at hs
-      by_cases hr : r = rt
-      · subst hr
-        simp at hs
-        rcases hs with rfl | hs
-        · simp [hpm]
-        · exact shape r s hs
-      · simp [hr] at hs; exact shape r s hs
-    · exact ⟨bnd, ro, clean, shape⟩
+      rcases mem_push_pool hs with ⟨_, rfl⟩ | hs
+      · simp [hpm]
+      · exact shape r s hs
+    · exact ⟨bnd, ro, clean, shape, sub⟩
   | copyStash =>
     simp only [step]
     split
     · next s0 rest hst =>
-      refine ⟨bnd, ro, clean, ?_⟩
+      have mem0 : s0 ∈ st.pool rt := sub rt s0 (by rw [hst]; exact List.mem_cons_self ..)
+      have memr : ∀ x ∈ rest, x ∈ st.pool rt := fun x hx => sub rt x (by rw [hst]; exact List.mem_cons_of_mem _ hx)
+      refine ⟨bnd, ro, clean, ?_, push_sub sub memr⟩
       intro r s hs
-      simp only [setStack] at hs
-      by_cases hr : r = rt
-      · subst hr
-        simp at hs
-        rcases hs with rfl | hs
-        · exact shape r s0 (by rw [hst]; exact List.mem_cons_self ..)
-        · exact shape r s (by rw [hst]; exact List.mem_cons_of_mem _ hs)
-      · simp [hr] at hs; exact shape r s hs
-    · exact ⟨bnd, ro, clean, shape⟩
+      rcases mem_push_pool hs with ⟨_, rfl⟩ | hs
+      · exact shape rt s0 mem0
+      · exact shape r s hs
+    · exact ⟨bnd, ro, clean, shape, sub⟩
   | leave =>
     simp only [step]
-    refine ⟨bnd, ro, clean, ?_⟩
+    refine ⟨bnd, ro, clean, shape, ?_⟩
     intro r s hs
-    simp only [setStack] at hs
+    simp only [setStack] at hs ⊢
     by_cases hr : r = rt
     · subst hr
       simp at hs
-      exact shape r s (List.mem_of_mem_tail hs)
-    · simp [hr] at hs; exact shape r s hs
+      exact sub r s (List.mem_of_mem_tail hs)
+    · simp [hr] at hs; exact sub r s hs
+  | switch chain =>
+    simp only [step]
+    refine ⟨bnd, ro, clean, shape, ?_⟩
+    intro r s hs
+    simp only [setStack] at hs ⊢
+    by_cases hr : r = rt
+    · subst hr
+      simp at hs
+      obtain ⟨i, _, hi⟩ := hs
+      exact List.mem_of_getElem? hi
+    · simp [hr] at hs; exact sub r s hs
   | bindVar n d =>
     simp only [step]
     split
     · next t ht =>
       have hown : t.own = true := by simpa [hOK, ht] using h
-      have hmem := target_mem ht
+      have hmem := sub rt t (target_mem ht)
       have hge := ((shape rt t hmem).2 hown).1
-      refine ⟨bnd, ?_, clean, ?_⟩
+      refine ⟨bnd, ?_, clean, ?_, ?_⟩
       · intro id hid
         have : id ≠ t.map := by omega
         simp [setMap, this, ro id hid]
       · intro r s hs
         exact shape r s (by simpa [setMap] using hs)
-    · exact ⟨bnd, ro, clean, shape⟩
+      · intro r s hs
+        exact sub r s (by simpa [setMap] using hs)
+    · exact ⟨bnd, ro, clean, shape, sub⟩
   | deleteVar n =>
     simp only [step]
     split
@@ -151,13 +180,15 @@ theorem ninv_step {bound : Nat} {m0 : Nat → NMap} {st : St} (rt : Nat) (op : O
         have := clean id hlt e he
         rw [this] at hd
         exact absurd hd (by decide)
-      refine ⟨bnd, ?_, clean, ?_⟩
+      refine ⟨bnd, ?_, clean, ?_, ?_⟩
       · intro id' hid'
         have : id' ≠ id := by omega
         simp [setMap, this, ro id' hid']
       · intro r s hs
         exact shape r s (by simpa [setMap] using hs)
-    · exact ⟨bnd, ro, clean, shape⟩
+      · intro r s hs
+        exact sub r s (by simpa [setMap] using hs)
+    · exact ⟨bnd, ro, clean, shape, sub⟩
 
 theorem ninv_run {bound : Nat} {m0 : Nat → NMap} (ops : List (Nat × Op)) :
     ∀ st, NInv bound m0 st → allH bound st ops = true → NInv bound m0 (run bound st ops) := by
@@ -171,92 +202,84 @@ theorem ninv_run {bound : Nat} {m0 : Nat → NMap} (ops : List (Nat × Op)) :
 
 /-! ### private copies are private: steps of other Runtimes are invisible -/
 
-/-- A private copy held by one Runtime is referenced by no stash of another Runtime. -/
+/-- A private copy created by one Runtime is referenced by no stash of another Runtime (whether on a current chain,
+captured by a closure or suspended in a generator). -/
 def Priv (st : St) : Prop :=
-  ∀ q1 q2, q1 ≠ q2 → ∀ s1 ∈ st.stacks q1, ∀ s2 ∈ st.stacks q2, s1.own = true → s1.map ≠ s2.map
+  ∀ q1 q2, q1 ≠ q2 → ∀ s1 ∈ st.pool q1, ∀ s2 ∈ st.pool q2, s1.own = true → s1.map ≠ s2.map
 
 theorem stash_lt_next {bound : Nat} {m0 : Nat → NMap} {st : St} (inv : NInv bound m0 st) {rt : Nat} {s : Stash}
-    (hs : s ∈ st.stacks rt) : s.map < st.next := by
+    (hs : s ∈ st.pool rt) : s.map < st.next := by
   have := inv.shape rt s hs
   cases ho : s.own
   · have := this.1 ho; have := inv.bnd; omega
   · exact (this.2 ho).2
 
+/-- `push` of a stash whose map no other Runtime's stash references, and that (if not own) is a Program map -/
+theorem priv_push {bound : Nat} {m0 : Nat → NMap} {st : St} (inv : NInv bound m0 st) (pv : Priv st) (rt : Nat) (s0 : Stash) (rest : List Stash)
+    (h1 : s0.own = true → ∀ q, q ≠ rt → ∀ s ∈ st.pool q, s0.map ≠ s.map)
+    (h2 : ∀ q, q ≠ rt → ∀ s ∈ st.pool q, s.own = true → s.map ≠ s0.map) : Priv (push st rt s0 rest) := by
+  intro q1 q2 hne s1 hs1 s2 hs2 ho
+  rcases mem_push_pool hs1 with ⟨e1, rfl⟩ | hs1' <;> rcases mem_push_pool hs2 with ⟨e2, rfl⟩ | hs2'
+  · exact absurd (e1.trans e2.symm) hne
+  · exact h1 ho q2 (fun e => hne (e1.trans e.symm)) s2 hs2'
+  · exact h2 q1 (fun e => hne (e.trans e2.symm)) s1 hs1' ho
+  · exact pv q1 q2 hne s1 hs1' s2 hs2' ho
+
 theorem priv_step {bound : Nat} {m0 : Nat → NMap} {st : St} (rt : Nat) (op : Op)
     (inv : NInv bound m0 st) (pv : Priv st) : Priv (step bound st rt op) := by
-  -- membership in a stack after the step implies membership before, or being the freshly pushed stash
   cases op with
   | enterFunc pm ext =>
     simp only [step]
     split
     · next hpm =>
       cases ext <;> simp only [if_true, if_false, Bool.false_eq_true, reduceIte]
-      · intro q1 q2 hne s1 h1 s2 h2 ho
-        simp only [setStack] at h1 h2
-        by_cases e1 : q1 = rt <;> by_cases e2 : q2 = rt <;> simp [e1, e2] at h1 h2
-        · exact absurd (e1.trans e2.symm) hne
-        · rcases h1 with rfl | h1
-          · simp at ho
-          · exact pv q1 q2 hne s1 (e1 ▸ h1) s2 h2 ho
-        · rcases h2 with rfl | h2
-          · have := ((inv.shape q1 s1 h1).2 ho).1; simp; omega
-          · exact pv q1 q2 hne s1 h1 s2 (e2 ▸ h2) ho
-        · exact pv q1 q2 hne s1 h1 s2 h2 ho
-      · intro q1 q2 hne s1 h1 s2 h2 ho
-        simp only [setStack, setMap] at h1 h2
-        by_cases e1 : q1 = rt <;> by_cases e2 : q2 = rt <;> simp [e1, e2] at h1 h2
-        · exact absurd (e1.trans e2.symm) hne
-        · rcases h1 with rfl | h1
-          · have := stash_lt_next inv h2; simp; omega
-          · exact pv q1 q2 hne s1 (e1 ▸ h1) s2 h2 ho
-        · rcases h2 with rfl | h2
-          · have := stash_lt_next inv h1; simp; omega
-          · exact pv q1 q2 hne s1 h1 s2 (e2 ▸ h2) ho
-        · exact pv q1 q2 hne s1 h1 s2 h2 ho
+      · apply priv_push inv pv
+        · intro ho; simp at ho
+        · intro q _ s hs ho
+          have := ((inv.shape q s hs).2 ho).1
+          simp; omega
+      · have inv' : NInv bound m0 (setMap st st.next (st.maps pm)) := by
+          refine ⟨inv.bnd, ?_, inv.clean, inv.shape, inv.sub⟩
+          intro id hid
+          have := inv.bnd
+          have hne : id ≠ st.next := by omega
+          simp [setMap, hne, inv.ro id hid]
+        have pv' : Priv (setMap st st.next (st.maps pm)) := pv
+        have key := priv_push inv' pv' rt ⟨st.next, true, true⟩ (st.stacks rt)
+          (by intro _ q _ s hs; have := stash_lt_next inv (by simpa [setMap] using hs); simp; omega)
+          (by intro q _ s hs _; have := stash_lt_next inv (by simpa [setMap] using hs); simp; omega)
+        intro q1 q2 hne s1 hs1 s2 hs2 ho
+        exact key q1 q2 hne s1 (by simpa [push, setMap] using hs1) s2 (by simpa [push, setMap] using hs2) ho
     · exact pv
   | enterBlock pm =>
     simp only [step]
     split
     · next hpm =>
-      intro q1 q2 hne s1 h1 s2 h2 ho
-      simp only [setStack] at h1 h2
-      by_cases e1 : q1 = rt <;> by_cases e2 : q2 = rt <;> simp [e1, e2] at h1 h2
-      · exact absurd (e1.trans e2.symm) hne
-      · rcases h1 with rfl | h1
-        · simp at ho
-        · exact pv q1 q2 hne s1 (e1 ▸ h1) s2 h2 ho
-      · rcases h2 with rfl | h2
-        · have := ((inv.shape q1 s1 h1).2 ho).1; simp; omega
-        · exact pv q1 q2 hne s1 h1 s2 (e2 ▸ h2) ho
-      · exact pv q1 q2 hne s1 h1 s2 h2 ho
+      apply priv_push inv pv
+      · intro ho; simp at ho
+      · intro q _ s hs ho
+        have := ((inv.shape q s hs).2 ho).1
+        simp; omega
     · exact pv
   | copyStash =>
     simp only [step]
     split
     · next s0 rest hst =>
-      intro q1 q2 hne s1 h1 s2 h2 ho
-      simp only [setStack] at h1 h2
-      have mem0 : s0 ∈ st.stacks rt := by rw [hst]; exact List.mem_cons_self ..
-      have memr : ∀ x, x ∈ rest → x ∈ st.stacks rt := fun x hx => by rw [hst]; exact List.mem_cons_of_mem _ hx
-      by_cases e1 : q1 = rt <;> by_cases e2 : q2 = rt <;> simp [e1, e2] at h1 h2
-      · exact absurd (e1.trans e2.symm) hne
-      · rcases h1 with rfl | h1
-        · exact pv rt q2 (e1 ▸ hne) s0 mem0 s2 h2 (by simpa using ho)
-        · exact pv rt q2 (e1 ▸ hne) s1 (memr _ h1) s2 h2 ho
-      · rcases h2 with rfl | h2
-        · exact pv q1 rt (e2 ▸ hne) s1 h1 s0 mem0 ho
-        · exact pv q1 rt (e2 ▸ hne) s1 h1 s2 (memr _ h2) ho
-      · exact pv q1 q2 hne s1 h1 s2 h2 ho
+      have mem0 : s0 ∈ st.pool rt := inv.sub rt s0 (by rw [hst]; exact List.mem_cons_self ..)
+      apply priv_push inv pv
+      · intro ho q hq s hs
+        exact pv rt q (fun e => hq e.symm) s0 mem0 s hs (by simpa using ho)
+      · intro q hq s hs ho
+        exact pv q rt hq s hs s0 mem0 ho
     · exact pv
   | leave =>
     simp only [step]
     intro q1 q2 hne s1 h1 s2 h2 ho
-    simp only [setStack] at h1 h2
-    by_cases e1 : q1 = rt <;> by_cases e2 : q2 = rt <;> simp [e1, e2] at h1 h2
-    · exact absurd (e1.trans e2.symm) hne
-    · exact pv rt q2 (e1 ▸ hne) s1 (List.mem_of_mem_tail h1) s2 h2 ho
-    · exact pv q1 rt (e2 ▸ hne) s1 h1 s2 (List.mem_of_mem_tail h2) ho
-    · exact pv q1 q2 hne s1 h1 s2 h2 ho
+    exact pv q1 q2 hne s1 (by simpa [setStack] using h1) s2 (by simpa [setStack] using h2) ho
+  | switch chain =>
+    simp only [step]
+    intro q1 q2 hne s1 h1 s2 h2 ho
+    exact pv q1 q2 hne s1 (by simpa [setStack] using h1) s2 (by simpa [setStack] using h2) ho
   | bindVar n d =>
     simp only [step]
     split
@@ -270,70 +293,88 @@ theorem priv_step {bound : Nat} {m0 : Nat → NMap} {st : St} (rt : Nat) (op : O
       exact pv q1 q2 hne s1 (by simpa [setMap] using h1) s2 (by simpa [setMap] using h2) ho
     · exact pv
 
-/-- One step of another Runtime `q` does not change what Runtime `r` sees. -/
+/-- One step of another Runtime `q` changes nothing Runtime `r` can reach: neither its current chain nor any stash
+it ever created. -/
 theorem view_step_other {bound : Nat} {m0 : Nat → NMap} {st : St} (q r : Nat) (op : Op) (hqr : q ≠ r)
-    (inv : NInv bound m0 st) (pv : Priv st) (h : hOK st q op = true) : view (step bound st q op) r = view st r := by
+    (inv : NInv bound m0 st) (pv : Priv st) (h : hOK st q op = true) :
+    view (step bound st q op) r = view st r ∧ poolView (step bound st q op) r = poolView st r := by
   have hrq : ¬ r = q := fun e => hqr e.symm
-  -- it suffices that the stack of r is unchanged and the maps it references are unchanged
-  have key : ∀ st' : St, st'.stacks r = st.stacks r → (∀ s ∈ st.stacks r, st'.maps s.map = st.maps s.map) → view st' r = view st r := by
-    intro st' hs hm
-    unfold view
-    rw [hs]
-    apply List.map_congr_left
-    intro s hsm
-    rw [hm s hsm]
+  have key : ∀ st' : St, st'.stacks r = st.stacks r → st'.pool r = st.pool r →
+      (∀ s ∈ st.pool r, st'.maps s.map = st.maps s.map) → view st' r = view st r ∧ poolView st' r = poolView st r := by
+    intro st' hs hp hm
+    unfold view poolView
+    rw [hs, hp]
+    constructor
+    · apply List.map_congr_left
+      intro s hsm
+      rw [hm s (inv.sub r s hsm)]
+    · apply List.map_congr_left
+      intro s hsm
+      rw [hm s hsm]
   cases op with
   | enterFunc pm ext =>
     simp only [step]
     split
     · cases ext <;> simp only [if_true, if_false, Bool.false_eq_true, reduceIte]
       · apply key
-        · simp [setStack, hrq]
+        · simp [push, hrq]
+        · simp [push, hrq]
         · intro s hs; rfl
       · apply key
-        · simp [setStack, setMap, hrq]
+        · simp [push, setMap, hrq]
+        · simp [push, setMap, hrq]
         · intro s hs
           have := stash_lt_next inv hs
           have hne : s.map ≠ st.next := by omega
-          simp [setStack, setMap, hne]
-    · rfl
+          simp [push, setMap, hne]
+    · exact ⟨rfl, rfl⟩
   | enterBlock pm =>
     simp only [step]
     split
     · apply key
-      · simp [setStack, hrq]
+      · simp [push, hrq]
+      · simp [push, hrq]
       · intro s hs; rfl
-    · rfl
+    · exact ⟨rfl, rfl⟩
   | copyStash =>
     simp only [step]
     split
     · apply key
-      · simp [setStack, hrq]
+      · simp [push, hrq]
+      · simp [push, hrq]
       · intro s hs; rfl
-    · rfl
+    · exact ⟨rfl, rfl⟩
   | leave =>
     simp only [step]
     apply key
     · simp [setStack, hrq]
+    · simp [setStack]
+    · intro s hs; rfl
+  | switch chain =>
+    simp only [step]
+    apply key
+    · simp [setStack, hrq]
+    · simp [setStack]
     · intro s hs; rfl
   | bindVar n d =>
     simp only [step]
     split
     · next t ht =>
       have hown : t.own = true := by simpa [hOK, ht] using h
-      have hmem := target_mem ht
+      have hmem := inv.sub q t (target_mem ht)
       apply key
+      · simp [setMap]
       · simp [setMap]
       · intro s hs
         have hne : s.map ≠ t.map := fun e => pv q r hqr t hmem s hs hown e.symm
         simp [setMap, hne]
-    · rfl
+    · exact ⟨rfl, rfl⟩
   | deleteVar n =>
     simp only [step]
     split
     · next id hid =>
       obtain ⟨⟨s0, hs0, hm0⟩, e, he, hd⟩ := delTarget_some hid
-      -- the map belongs to a private copy of q (Program maps have no deletable entry)
+      have hs0p := inv.sub q s0 hs0
       have hge : bound ≤ id := by
         apply Nat.le_of_not_lt
         intro hlt
@@ -343,27 +384,29 @@ theorem view_step_other {bound : Nat} {m0 : Nat → NMap} {st : St} (q r : Nat) 
         exact absurd hd (by decide)
       have hown : s0.own = true := by
         cases ho : s0.own
-        · have := (inv.shape q s0 hs0).1 ho; omega
+        · have := (inv.shape q s0 hs0p).1 ho; omega
         · rfl
       apply key
       · simp [setMap]
+      · simp [setMap]
       · intro s hs
-        have hne : s.map ≠ id := fun e' => pv q r hqr s0 hs0 s hs hown (by rw [hm0, e'])
+        have hne : s.map ≠ id := fun e' => pv q r hqr s0 hs0p s hs hown (by rw [hm0, e'])
         simp [setMap, hne]
-    · rfl
+    · exact ⟨rfl, rfl⟩
 
 theorem others_invisible {bound : Nat} {m0 : Nat → NMap} (r : Nat) (ops : List (Nat × Op)) :
     ∀ st, NInv bound m0 st → Priv st → (∀ x ∈ ops, x.1 ≠ r) → allH bound st ops = true →
-      view (run bound st ops) r = view st r := by
+      view (run bound st ops) r = view st r ∧ poolView (run bound st ops) r = poolView st r := by
   induction ops with
-  | nil => intro st _ _ _ _; rfl
+  | nil => intro st _ _ _ _; exact ⟨rfl, rfl⟩
   | cons x rest ih =>
     intro st inv pv hr h
     obtain ⟨q, op⟩ := x
     simp only [allH, Bool.and_eq_true] at h
     have hq : q ≠ r := hr (q, op) (List.mem_cons_self ..)
     simp only [run]
-    rw [ih _ (ninv_step q op inv h.1) (priv_step q op inv pv) (fun y hy => hr y (List.mem_cons_of_mem _ hy)) h.2]
-    exact view_step_other q r op hq inv pv h.1
+    have h1 := ih _ (ninv_step q op inv h.1) (priv_step q op inv pv) (fun y hy => hr y (List.mem_cons_of_mem _ hy)) h.2
+    have h2 := view_step_other q r op hq inv pv h.1
+    exact ⟨h1.1.trans h2.1, h1.2.trans h2.2⟩
 
 end GojaModel.C16.Names
